@@ -29,7 +29,7 @@ import time
 import traceback
 
 VERIF = os.path.dirname(os.path.dirname(os.path.abspath(__file__)))
-REPO = "/repo"
+REPO = os.environ.get("VERIF_REPO", "/repo")
 _PROP = None
 
 
@@ -194,10 +194,17 @@ def run_check(prop, tier, seed):
             if results[i].get("_ok") and rerun[i].get("_ok")
             and results[i].get("digest") != rerun[i].get("digest")]
   if nondet:
+    # The same case gave two different observations in one run.  If the executions also violate the property the
+    # violations are reported below (exit 1: code whose answer depends on what the process did before - a cache, a
+    # hoisted buffer - is exactly such a defect); without any violation the run cannot be trusted: exit 2.
     print("HARNESS-NONDETERMINISM property=%s cases=%s" % (pid, nondet[:5]))
     print(json.dumps({"case": cases[nondet[0]], "a": results[nondet[0]].get("digest"),
                       "b": rerun[nondet[0]].get("digest")})[:2000])
-    return 2
+    for i in nondet:
+      for v in rerun[i].get("violations", []) if rerun[i].get("_ok") else []:
+        results[i].setdefault("violations", []).append(v)
+    if not any(r.get("violations") for r in results if r.get("_ok")):
+      return 2
 
   # ---- aggregate -------------------------------------------------------------------
   evals = nontriv = transitions = traces = 0
